@@ -12,6 +12,7 @@ import (
 	"encoding/json"
 	"fmt"
 	"net"
+	"runtime/debug"
 	"strings"
 	"testing"
 
@@ -239,6 +240,7 @@ func (c *c09EngCtx) engineList(p *evidence.Part, list []int, rules []c09Rule, co
 }
 
 func c09EngEnumerate(sh *evidence.Shard) {
+	debug.SetGCPercent(800) // many short-lived allocations per lookup; heap stays small
 	env := sh.Env()
 	qs := c09Queries()
 	c := &c09EngCtx{sh: sh, env: env, tbl: c09NewTable(qs), qs: qs, nviol: map[string]int{}}
